@@ -267,12 +267,13 @@ Section Image.
   Qed.
 End Image.
 
-Lemma releases_fs c l : forall s s', exec_acts c (map ARelease l) s = (s', SOk) -> s_fs s' = s_fs s.
+Lemma releases_fs c sc l : forall s s', exec_acts c (map (rel_act sc) l) s = (s', SOk) -> s_fs s' = s_fs s.
 Proof.
   induction l as [|h r IH]; intros s s' H; simpl in H.
   - inversion H; reflexivity.
-  - change (exec_acts c (ARelease h :: map ARelease r) s = (s', SOk)) in H.
-    apply exec_acts_cons_ok in H. destruct H as (s1 & Hs & Hr). simpl in Hs. inversion Hs; subst.
+  - change (exec_acts c (rel_act sc h :: map (rel_act sc) r) s = (s', SOk)) in H.
+    apply exec_acts_cons_ok in H. destruct H as (s1 & Hs & Hr). unfold rel_act in Hs.
+    destruct (existsb (Nat.eqb h) (sc_held sc)); simpl in Hs; [discriminate|]. inversion Hs; subst.
     rewrite (IH _ _ Hr). reflexivity.
 Qed.
 
